@@ -90,6 +90,21 @@ pub fn run(args: &Args) {
             }
         }
         if rng.chance(1, 10) { s.push(' '); }
+        // characters that are not ASCII: look-alikes that Unicode case mapping turns into ASCII letters (long s, dotless i,
+        // Kelvin sign) and accented letters - inside names and next to operators (other Unicode white space is left out: the
+        // statement does not say whether it separates clauses)
+        if rng.chance(1, 6) && !s.is_empty() {
+            let cs: Vec<char> = s.chars().collect();
+            let at = rng.below(cs.len() as u64) as usize;
+            let repl = match cs[at] {
+                's' | 'S' => 'ſ', 'i' | 'I' => 'ı', 'k' | 'K' => '\u{212A}',
+                _ => *rng.pick(&['é', 'ü', '日']),
+            };
+            let mut out: String = cs[..at].iter().collect();
+            out.push(repl);
+            if !rng.chance(1, 3) { out.extend(cs[at + 1..].iter()); } else { out.extend(cs[at..].iter()); }
+            s = out;
+        }
         t.emit(json!({"event":"Caps","text":codes(&s),"acc":observe(&s)}));
     }
     t.flush();
